@@ -44,7 +44,7 @@ ATTR_SHIFT = 1 << 21
 WFIX = True
 SPLIT = True
 NQUICK = 170
-NAIMED = 78
+NAIMED = 84
 NSPLIT = 36
 
 # --------------------------------------------------------------------------------------------
@@ -187,7 +187,14 @@ class Gen:
         e = r.choice(['x', 'X', 'dd', 'dd', 'dw', 'D', 'd$', 'db', 'dj', 'dk', 'dG', 'dH', 'dL', 'd}', 'p', 'P', 'p', 'P', 'yy', 'yw', 'Y', 'yj', 'J', 'J',
                       'rZ', '~', '>>', '<<', '.', '.', 'ma', '"ayy', '"ap', '"aP', 'g~w', 'gUU', 'yG', 'y$', '>j', '<k',
                       'yb', 'y0', 'y^', 'yFa', 'yTe', 'y?a\n', 'yB', 'yh', 'yk', 'y1G',
-                      'g~k', 'gUk', '>k', '<k', '>-', '<1G', 'g~j', '>}', 'guH', 'yH', 'y-', '>L'])
+                      'g~k', 'gUk', '>k', '<k', '>-', '<1G', 'g~j', '>}', 'guH', 'yH', 'y-', '>L',
+                      'y/pat', 'y/pat', 'd/pat', 'y}', 'y2w', 'y4w', 'y3e', 'y`a', 'y2}', 'cput', 'cput', 'cput'])
+        if e in ('y/pat', 'd/pat'):
+            # a character-wise region that usually ends on a later line: the register holds newlines
+            return e[0].encode() + b'/' + r.choice(['line', 'e ', '^l', 'a', 'b', '1', '2', '3', 'x']).encode() + b'\n'
+        if e == 'cput':
+            # a put with a small count (the register may be character-wise with newlines, see above)
+            return r.choice([b'', b'', b'"a']) + r.choice([b'2', b'3', b'4', b'2']) + r.choice([b'p', b'P'])
         if e in ('x', 'dd', 'J', 'p', 'P', 'yy', '>>', '<<', 'X', '~', 'dw', '.'):
             return self.count() + e.encode()
         return e.encode()
@@ -313,7 +320,7 @@ def gen_aimed(rng, quick, k):
     rows = rng.choice([3, 4, 5, 6, 8, 10])
     cols = rng.choice([8, 10, 20, 20, 40])
     h = rows - 1
-    shape = ['top-O', 'bot-o', 'mid-i', 'ai', 'bot-J', 'put', 'bot-dd', 'horiz', 'horiz', 'scrollmix', 'sticky', 'bot-o', 'top-back'][k % 13]
+    shape = ['top-O', 'bot-o', 'mid-i', 'ai', 'bot-J', 'put', 'bot-dd', 'horiz', 'horiz', 'scrollmix', 'sticky', 'bot-o', 'top-back', 'cput'][k % 14]
     n = rng.choice([h, h + 1, 2 * h + 1, 3 * h + 2, 4 * h + 1])
     style = 'plain' if shape not in ('horiz',) else 'mixed'
     lines = gen_lines(rng, n, cols, style)
@@ -365,6 +372,40 @@ def gen_aimed(rng, quick, k):
         A += [e('%dG' % rng.range(1, n)), reg + e('%dyy' % m)]
         A += rng.choice([to_top(), to_bot()]) + [reg + rng.choice([b'p', b'P'])] + undo3()
         A += rng.choice([to_top(), to_bot()]) + [reg + rng.choice([b'2p', b'P', b'p', b'3P'])] + undo3() + [g.scroll(), reg + b'p', b'u']
+    elif shape == 'cput':
+        # a CHARACTER-WISE register that holds 1..3 newlines (y/pat, d/pat, y<n>w, y}, y`a across line ends), put with p / P and
+        # a count 1..4 (and repeated by [count].) on the first, a middle and the last row of the window, on the first and the
+        # last line of the buffer: line xrow becomes count * newlines + 1 lines -- fewer, as many or more than the rows below it
+        t = rng.range(1, max(1, n - 3))
+        d = rng.range(1, 3)
+        colm = lambda: rng.choice([b'', b'l', b'll', b'w', b'e', b'$', b'0', b'3l'])
+        reg = rng.choice([b'', b'', b'"a'])
+        op = rng.choice([b'y', b'y', b'y', b'd'])
+        how = rng.below(8)
+        if how < 3:
+            yank = [e('%dG' % t), colm(), reg + op + e('/%s\n' % rng.choice(['e %d' % (t + d), '^line %d' % (t + d), 'ne %d' % (t + d), ' %d' % (t + d)]))]
+        elif how < 4:
+            yank = [e('%dG' % (t + d)), rng.choice([b'', b'l', b'w', b'e']), b'ma', e('%dG' % t), colm(), reg + op + b'`a']
+        elif how < 5:
+            yank = [e('%dG' % t), rng.choice([b'w', b'$', b'e', b'l']), reg + op + e('%dw' % rng.choice([2, 3, 4, 5, 6]))]
+        elif how < 6:
+            yank = [e('%dG' % t), rng.choice([b'w', b'$', b'e']), reg + op + e('%de' % rng.choice([2, 3, 4, 5]))]
+        elif how < 7:
+            # paragraphs: blank lines t+d and further down
+            for j in (t + d - 1, t + d + 2, t + d + 4):
+                if 0 <= j < n:
+                    lines[j] = ''
+            yank = [e('%dG' % t), colm(), reg + op + rng.choice([b'}', b'}', b'2}'])]
+        else:
+            yank = [e('%dG' % (t + d)), colm(), reg + op + e('?%s\n' % rng.choice(['e %d' % t, 'ine %d' % t, '%d' % t]))]
+        A += yank
+        cntp = lambda: rng.choice([b'', b'1', b'2', b'2', b'3', b'3', b'4'])
+        places = [to_top, to_bot, lambda: [b'M'], lambda: [b'1G'], lambda: [b'G'], lambda: [e('%dG' % rng.range(1, n))],
+                  lambda: to_top() + [b'j'], lambda: to_bot() + [b'k']]
+        for rnd in range(3):
+            A += rng.choice(places)() + [colm(), reg + cntp() + rng.choice([b'p', b'P'])]
+            A += rng.choice([undo3(), undo3(), [rng.choice([b'', b'2', b'3']) + b'.'], [rng.choice([b'2', b'3', b'4']) + b'.', b'u'], [], [g.scroll(), b'u']])
+        A = [a for a in A if a]
     elif shape == 'top-back':
         # an operator whose backward line motion starts on the first row of a scrolled window: the change begins above the window
         back = lambda: rng.choice([b'k', b'-', b'2k', b'1G', b'{', b'H', e('%dk' % h)])
@@ -1217,7 +1258,7 @@ def atom_kind(a):
         return 'an undo'
     if b == b'\x12' or b == b'u\x12':
         return 'a redo'
-    if b[:1] in (b'p', b'P') or (b[:1] == b'"' and b[2:3] in (b'p', b'P')):
+    if put_cmd(a):
         return 'a put'
     if b == b'J':
         return 'a join'
@@ -1228,6 +1269,19 @@ def atom_kind(a):
     if win_cmd(a):
         return 'a window command'
     return None
+
+
+PUT_RE = __import__('re').compile(rb'^(?:(\d*)("[a-z])?|("[a-z])?(\d*))([pP])$')
+
+
+def put_cmd(a):
+    """(register name or None, count, b'p' | b'P') of a put command `["x][count]p`, else None"""
+    m = PUT_RE.match(a)
+    if not m:
+        return None
+    cnt = m.group(1) or m.group(4) or b''
+    reg = m.group(2) or m.group(3)
+    return (reg[1:] if reg else None), max(1, int(cnt or b'1')), m.group(5)
 
 
 def is_plain_motion(a):
